@@ -1,7 +1,7 @@
 """property id -> engine"""
 import sys
 
-E1_PROPS = {"C01", "C02", "C03", "C04", "C05", "C06", "C07", "C08"}
+E1_PROPS = {"C01", "C02", "C03", "C04", "C05", "C06", "C07", "C08", "C09", "C20"}
 
 
 def run(prop, tier, replay):
